@@ -215,6 +215,25 @@ def h_multiaxis(h, M, N, layout, op):
         raise ValueError(op)
 
     poly = Polynomial(C.copy(), grid, basis, direction, endpoints)
+    if op == "toggle-all":
+        # every polynomial axis changes basis in ONE call (axes may share direction and endpoints while
+        # going in opposite senses): equal to toggling the axes one at a time with 1-D polynomials
+        nb = tuple(b if b == "Array" else ("Chebyshev" if b == "Cardinal" else "Cardinal") for b in basis)
+        poly.changeBasis(nb)
+        h.prove("meta", Cond(b=poly.basis == nb))
+        ref = C.copy()
+        for a_, (b, d, e) in enumerate(layout):
+            if b == "Array":
+                continue
+            mv = np.moveaxis(ref, a_, -1)
+            new = np.empty(mv.shape, dtype=object)
+            for idx in np.ndindex(*mv.shape[:-1]):
+                q = Polynomial(np.array(mv[idx]), grid, b, d, e)
+                q.changeBasis("Chebyshev" if b == "Cardinal" else "Cardinal")
+                new[idx] = q.coefficients
+            ref = np.moveaxis(new, -1, a_)
+        h.prove_all_close("one call = one axis at a time", np.asarray(poly.coefficients), ref, rtol=0, atol=TOL * 100)
+        return
     if op == "derivative":
         res = poly.derivative(ax)
         out = res.coefficients
@@ -344,6 +363,12 @@ _MQ = [dict(M=4, N=3, layout=l, op=op) for op in ("derivative", "toggle", "integ
     (("Cardinal", "z", True), A),
     (A, ("Cardinal", "z", False), ("Chebyshev", "pz", False), ("Cardinal", "pp", False)),
     (("Chebyshev", "pz", True), ("Cardinal", "pp", True)),
+]]
+_MQ += [dict(M=4, N=3, layout=l, op="toggle-all") for l in [
+    (("Cardinal", "pz", False), ("Chebyshev", "pz", False)),
+    (A, ("Chebyshev", "z", True), ("Cardinal", "z", True)),
+    (("Chebyshev", "pp", False), ("Cardinal", "pp", False), ("Cardinal", "pz", False)),
+    (A, ("Cardinal", "z", False), ("Chebyshev", "pz", False), ("Cardinal", "pp", False)),
 ]]
 _MT = _MQ + [dict(M=5, N=5, layout=l, op=op) for op in ("derivative", "toggle", "integrate") for l in [
     (A, ("Chebyshev", "z", False), ("Cardinal", "pz", False), ("Cardinal", "pp", False)),
